@@ -13,6 +13,7 @@ def check(ctx):
     ctx.guard(r171_172, ctx)
     ctx.guard(r173, ctx)
     ctx.guard(r176_setup_once, ctx)
+    ctx.guard(r177_training_mode, ctx)
     ctx.guard(r174, ctx)
     ctx.guard(_shared_c17, ctx)
 
@@ -237,6 +238,38 @@ def r176_setup_once(ctx):
     v = calls_to(rf, VAL)
     okf = len(v) == 1 and (kw(v[0], "reinitialize") is TRUE or arg(v[0], 3) is TRUE)
     ctx.ob("R17.6", rf.func, v[0].node if v else None, okf, "fit always re-initialises (reinitialize=True)", construct="fit reinitialises")
+
+
+def r177_training_mode(ctx):
+    ctx.rule("R17.7", "every training step runs the networks in training mode, whatever happened since the last step: the PyTorch "
+                      "engine calls .train() on both models before the forward passes of train_step, the TensorFlow engine never "
+                      "calls a model with training=False there (Keras takes the mode per call; torch's .eval() of evaluate() "
+                      "persists, so a predict between two steps must not leak into the next step)")
+    from .common import M_PT, M_TF
+    A = Analysis(ctx, max_depth=1, inline=lambda f_, d_: False)
+    r = A.run(M_PT + ":PytorchEngine.train_step", cls_ctx=M_PT + ":PytorchEngine")
+    fwd = [e for e in r.events if e.kind == "call" and e.data["fterm"].op == "attr" and e.data["fterm"].args[0] is r.self_term
+           and e.data["fterm"].args[1] in ("predictor_model", "adversary_model")]
+    for m in ("predictor_model", "adversary_model"):
+        tr = [e for e in r.events if e.kind == "call" and e.data["fterm"].op == "attr" and e.data["fterm"].args[1] == "train"
+              and e.data["fterm"].args[0] is mk("attr", r.self_term, m) and not e.pc and not e.loops
+              and (not e.data["args"] or e.data["args"][0] is TRUE)]
+        first = [e for e in fwd if e.data["fterm"].args[1] == m]
+        ok = bool(tr) and bool(first) and tr[0].seq < first[0].seq
+        ctx.ob("R17.7", r.func, tr[0].node if tr else (first[0].node if first else None), ok,
+               f"{m}.train() precedes its forward pass in every train_step" if ok else
+               f"train_step does not put {m} into training mode itself: after a predict() (evaluate() calls .eval()) the next steps "
+               "train in evaluation mode, so fit with a predicting callback differs from the same partial_fit sequence",
+               construct=f"torch training mode {m}")
+    r2 = A.run(M_TF + ":TensorflowEngine.train_step", cls_ctx=M_TF + ":TensorflowEngine")
+    for m in ("predictor_model", "adversary_model"):
+        calls = [e for e in r2.events if e.kind == "call" and e.data["fterm"].op == "attr" and e.data["fterm"].args[0] is r2.self_term
+                 and e.data["fterm"].args[1] == m]
+        # Keras takes the mode per call (nothing persists from evaluate()); a training step must not ask for inference mode
+        ok = bool(calls) and all(kw(e, "training") is not FALSE for e in calls)
+        ctx.ob("R17.7", r2.func, calls[0].node if calls else None, ok, f"{m} is not called in inference mode in train_step (the "
+               "mode is a per-call argument in Keras, so evaluate() cannot leak into the next step)",
+               construct=f"tensorflow training mode {m}")
 
 
 def r174(ctx):
